@@ -389,6 +389,18 @@ def logic_shapes():
         yield 'slist', lambda: Node('slist', None, [lit_int(1), lit_int(2)], 'slist')
         yield 'pair', lambda: Node('pair', None, [lit_int(1), lit_int(2)], 'pair')
         yield 'ident', lambda: Node('id', 'x')          # its evaluation is a host call: seen in the trace iff it is evaluated
+        # bare literals of every kind as the whole operand / arm: a builder that treats "a literal that is already a boolean"
+        # specially must not include unit, and must still normalise every other literal
+        yield 'lit-unit', UNIT
+        yield 'lit-true', TRUE
+        yield 'lit-false', FALSE
+        yield 'lit-symbol', lambda: lit_sym('s')
+        yield 'lit-text', lambda: lit_text('t')
+        yield 'lit-empty-text', lambda: lit_text('')
+        yield 'lit-float', lambda: lit_float(0.0)
+        yield 'lit-zero', lambda: lit_int(0)
+        yield 'input', INPUT
+        yield 'group-unit', lambda: Node('slist', None, [UNIT()], 'slist') if False else prefix('??', UNIT())
         yield 'ident-arith', lambda: binop('+', Node('id', 'count'), lit_int(1))
     lefts = [('truthy', lambda: lit_int(5)), ('false', FALSE), ('unit', UNIT), ('input', INPUT)]
     for tn, tk in tails():
